@@ -114,7 +114,7 @@ PROPS = {
         theorems={t: [] for t in ["C01_deterministic", "C01_fuel_monotone", "C01_eval_fuel_monotone"]},
         n_quick=240, n_thorough=3000,
         gen_timeout=3000,
-        gates=["ok", "globals>16", "return_in_loop", "nested_loops", "call.fn_argument", "dyncall.variable",
+        gates=["ok", "globals>16", "shadowing_loop_variable", "return_in_loop", "nested_loops", "call.fn_argument", "dyncall.variable",
                "closure.depth2", "closure.depth3", "closure.arity3", "closure.in_loop", "closure.in_submodule",
                "closure.returned", "closure.in_array", "closure.writes_captured", "closure.loop_idiom",
                "closure.siblings", "table.alias", "std.callback", "std.key_function", "native.call1",
